@@ -25,6 +25,18 @@ pub fn selftest() -> Result<(), String> {
 /// Command line shared by both binaries. `lookup` resolves sweep properties, `special` handles
 /// properties with their own engine (returns the exit code).
 pub fn cli_main(lookup: &dyn Fn(&str) -> Option<Box<dyn runner::Prop>>, special: &dyn Fn(&str, Tier) -> Option<i32>, replay_special: &dyn Fn(&serde_json::Value, &str) -> Option<i32>) {
+    // trust / cost seam (DESIGN §2.3): a one-file trust store. OpenSSL reads these variables when it is
+    // initialised, so they must be in the environment of the process from the start: re-exec once if needed.
+    if std::env::var("SSL_CERT_FILE").ok().as_deref() != Some("/verif/fixtures/trust.pem") {
+        let exe = std::env::current_exe().expect("current_exe");
+        let status = std::process::Command::new(exe)
+            .args(std::env::args().skip(1))
+            .env("SSL_CERT_FILE", "/verif/fixtures/trust.pem")
+            .env("SSL_CERT_DIR", "/verif/fixtures/empty")
+            .status()
+            .expect("re-exec");
+        std::process::exit(status.code().unwrap_or(2));
+    }
     let args: Vec<String> = std::env::args().collect();
     if args.len() < 2 {
         eprintln!("usage: vcheck <ID> quick|thorough | replay <file> | selftest");
